@@ -22,7 +22,7 @@ func c11Oracle(w *World, last Op) string {
 	if c == nil {
 		return ""
 	}
-	if last.K == 'C' || last.K == 'G' || last.K == 'B' || last.K == 'T' || last.K == 'Q' {
+	if last.K == 'C' || last.K == 'G' || last.K == 'g' || last.K == 'B' || last.K == 'T' || last.K == 'Q' {
 		if f := recoverable(w.S, *c, "after "+last.String()); f != "" {
 			w.FailCP, w.FailStore = c, w.S
 			return f
@@ -39,7 +39,7 @@ func c11Oracle(w *World, last Op) string {
 	} else {
 		prev = c.logLen
 	}
-	if last.K != 'C' && last.K != 'G' && last.K != 'B' && last.K != 'T' && last.K != 'Q' {
+	if last.K != 'C' && last.K != 'G' && last.K != 'g' && last.K != 'B' && last.K != 'T' && last.K != 'Q' {
 		return ""
 	}
 	for cut := prev; cut < len(log); cut++ {
@@ -162,6 +162,9 @@ func C11(tier rt.Tier) int {
 		runs = []cfg{
 			{name: "1key-very-deep", keys: []int{0}, vals: []string{"a", "b"}, levels: []int{0}, gc: true, depth: 13, c11: true, maxNoDup: 7},
 			{name: "2keys-very-deep", keys: []int{0, 4}, vals: []string{"a", "b"}, levels: []int{1}, gc: true, depth: 10, c11: true, maxNoDup: 6},
+			// collection passes whose storage write is rejected, retried later
+			{name: "1key-failing-gc-writes", keys: []int{0}, vals: []string{"a", "b"}, levels: []int{0}, gc: true, gcFault: true, depth: 10, c11: true, maxNoDup: 6},
+			{name: "2keys-failing-gc-writes", keys: []int{0, 4}, vals: []string{"a"}, levels: []int{0}, gc: true, gcFault: true, depth: 11, c11: true, maxNoDup: 6},
 			{name: "distinct-values-3keys", keys: []int{0, 2, 5}, vals: []string{"a", "b"}, levels: []int{0, 1, 64}, gc: true, rootOp: true, depth: 6, c11: true, maxNoDup: 4},
 			{name: "4keys", keys: []int{0, 1, 2, 4}, vals: []string{"a", "c"}, levels: []int{0, 64}, gc: true, rootOp: true, depth: 6, c11: true, maxNoDup: 4},
 			// release in one commit, identical re-creation in a later commit, GC passes anywhere (needs 8+ operations)
